@@ -276,7 +276,9 @@ class ElementModel:
                 raise Raises(IndexError)
             return x % n if n else 0
         for i, e in enumerate(elems):
-            if e.equals_real(x):
+            # (list.index: Python equality -- 1 == 1.0 == True)
+            if e.equals_real(x) or (e.kind == "plain" and isinstance(e.value, (int, float)) and isinstance(x, (int, float))
+                                    and e.value == x):
                 return i
         raise Raises(ValueError)
 
